@@ -11,6 +11,7 @@ oracle:         the same observations vs `pdshmodel rcmd spec` (token grammar / 
 """
 import itertools
 import json
+import re
 import os
 import pwd
 import subprocess
@@ -766,7 +767,26 @@ def part_d(ctx, cov, dist, rng, repo, only=None):
                 pad = max(1, total - base - 16)
                 cmd = cmd + [("y" * (pad - 1)) + "Z"]
             return {"addrs": addrs, "words": words, "want": want, "l": l, "cmd": cmd}
-        for g in ((gen() for _ in range(n)) if only is None else only):
+
+        def sweep():
+            """one request for EVERY value of  strlen(luser)+1+strlen(ruser)+1+strlen(cmd)  in the windows
+            [c-8, c+8] around LINEBUFSIZE (generated from dsh.h of the tree under test) and 1024, 4096, 8192,
+            65536, for two (luser, ruser) pairs of different lengths"""
+            m = re.search(r"def LINEBUFSIZE : Nat := (\d+)", open(os.path.join(os.path.dirname(HARNESS), "lean", "PdshVerif", "Gen",
+                                                                          "Dsh.lean")).read())
+            lbs = int(m.group(1)) if m else 2048
+            dist["rsh_linebufsize"] = lbs
+            out = []
+            for ruser in (None, "a_longer_remote_user"):
+                ru = ruser or luser
+                for c in sorted({lbs, 1024, 4096, 8192, 65536}):
+                    for s_ in range(c - 8, c + 9):
+                        k = s_ - len(luser) - len(ru) - 2
+                        out.append({"addrs": [PEER_ADDRS[0]], "words": [PEER_ADDRS[0]], "want": {PEER_ADDRS[0]: None}, "l": ruser,
+                                    "cmd": ["e " + "y" * (k - 3) + "Z"], "sweep": s_})
+            return out
+        import itertools as _it
+        for g in (_it.chain(sweep(), (gen() for _ in range(n))) if only is None else only):
             if len(ctx.violations) - nviol0 >= 3:
                 break               # a broken handshake makes every run wait for time-outs
             addrs, words, want, l, cmd = g["addrs"], g["words"], g["want"], g["l"], g["cmd"]
@@ -793,6 +813,10 @@ def part_d(ctx, cov, dist, rng, repo, only=None):
                                  "fields: %r ..." % (addr, len(data), data[:80]), dict(case, request_len=len(data)))
                     continue
                 pf, lu, ru, cm = [unhx(x) for x in pl.split()[1:]]
+                if g.get("sweep") is not None:
+                    # the total the sweep is about, measured on what the peer really received
+                    dist.setdefault("rsh_sweep_lengths", {}).setdefault("luser=%d,ruser=%d" % (len(lu), len(ru)), []).append(
+                        len(lu) + 1 + len(ru) + 1 + len(cm))
                 exp_ru = want.get(addr) or l or luser
                 exp_cmd = " ".join(cmd)
                 okport = (pf == "" and backok is None) or (pf.isdigit() and backok is True)
@@ -856,6 +880,14 @@ def part_e(ctx, cov, dist, rng, repo, variant, only=None):
         return {"ssh": True, "hosts": hosts, "user": rng.choice([None, "bob", luser]), "args": rng.choice(templates),
                 "append": rng.choice(appends),
                 "words": [rng.choice(pieces) for _ in range(rng.choice([1, 2, 3, 4]))]}
+    # which form of ssh_argv_create is this?  (F09-SSHPCT repaired = `echo %h` reaches ssh as written)
+    margs = ["model", variant]
+    pr = preload.run_pdsh(pool, exe, ["-R", "ssh", "-w", "n1", "echo", "%h"], moddir_env=sshdir, fake_dir=sshdir,
+                          dirlist=["sshcmd.so"], extra_env={"PATH": fakebin + ":/usr/bin:/bin"}, argv0=exe)
+    if any(l.split()[-1] == hx("%h") for l in pr["out"].splitlines() if ": argv " in l):
+        margs.append("sshesc")
+        ctx.log("ssh_argv_create escapes '%' in the command words (F09-SSHPCT repaired): model runs as `sshesc`")
+    dist["ssh_variant"] = " ".join(margs)
     lines, recs = [], []
     for g in ((gen() for _ in range(n)) if only is None else only):
         words = g["words"]
@@ -880,7 +912,7 @@ def part_e(ctx, cov, dist, rng, repo, variant, only=None):
             lines.append("ssh %s %s %s %d 0 %s %s ~ %s %s" % (hx(h), hx(luser), hx(g["user"] or luser), rank, opt(g["append"]),
                                                             opt(g["args"]), hx(" ".join(words)), " ".join(hx(w) for w in words)))
             recs.append((g, argv, h, got.get(h), r))
-    ml = ctx.model("rcmd", "".join(l + "\n" for l in lines), args=["model", variant]) if lines else []
+    ml = ctx.model("rcmd", "".join(l + "\n" for l in lines), args=margs) if lines else []
     for (g, argv, h, got, r), m in zip(recs, ml):
         cov["evaluations"] += 1
         dist["ssh"] += 1
@@ -896,7 +928,8 @@ def part_e(ctx, cov, dist, rng, repo, variant, only=None):
         # the command text must reach the transport unchanged: the last arguments are the command words
         want = [hx(w) for w in g["words"]]
         if got[-len(want):] != want:
-            esc = any(x in w for w in g["words"] for x in ("%h", "%u", "%n", "%%"))
+            # the known-finding class exists only in the code that formats the command words as they stand
+            esc = "sshesc" not in margs and any(x in w for w in g["words"] for x in ("%h", "%u", "%n", "%%"))
             sig = "ssh:percent-in-command" if esc else "ssh:mismatch"
             dist["offenders"][sig] = dist["offenders"].get(sig, 0) + 1
             ctx.offender(sig, "the command words reach ssh as %s instead of %s" % (
@@ -945,7 +978,7 @@ def replay_items(ctx):
 
 def run(ctx):
     rng = ctx.rng
-    ctx.gen_consts(["modopt"])
+    ctx.gen_consts(["modopt", "dsh"])
     ctx.lean_build([PROPS, "pdshmodel"])
     ctx.audit(PROPS)
     cov = {"evaluations": 0, "distinct_nontrivial": 0, "samples": [],
